@@ -481,8 +481,7 @@ class RefModule:
             ctrl = rv.nctrl
             get = lambda n: self.cols[key][n]
         elif key in self.edge_columns():
-            if rv.kind == "module":
-                raise Unspec("module-level make_trainable of synapse parameters")
+            # module level: every synapse that has the parameter shares one value (all rows controlled by the module)
             rows = [e for e in rv.E if not isnan(self.edges[e]["vals"].get(key))]
             ctrl = rv.ectrl
             get = lambda e: self.edges[e]["vals"][key]
